@@ -38,8 +38,37 @@ theorem c_comment_accepts :
     accepts cComment (s2b "/* * / */") = true ∧ accepts cComment (s2b "/*/") = false ∧
     accepts cComment (s2b "/* */ */") = false := by decide +kernel
 
-/-- the comment rule of the table IS that pattern -/
-theorem c_comment_in_table : initialRules.any (fun r => r.1 == cComment) = true := by decide +kernel
+/-- the table regenerated from lexer.ll has a rule with that behaviour (and, being skipped, such comments vanish) -/
+theorem c_comment_in_table :
+    initialRules.any (fun r => accepts r.1 (s2b "/***/") && accepts r.1 (s2b "/* a **/") && accepts r.1 (s2b "/* * / */") &&
+      !accepts r.1 (s2b "/*/") && !accepts r.1 (s2b "/* */ */")) = true := by decide +kernel
+
+theorem c_comment_is_skipped :
+    (pick initialRules (s2b "/***/x")).map (·.1) = some 5 ∧ (pick initialRules (s2b "/* a **/ 2")).map (·.1) = some 8 := by
+  decide +kernel
+
+/-! ### the tie with lexer.ll
+
+The patterns of the three rule tables are regenerated from lexer.ll on every run
+(Generated/LexerRules.lean); the actions are written here, in file order.  The theorem pins
+the pattern texts the actions were written for and a digest of every action's C++ text (comments
+and white space removed): a rule added, removed, reordered or re-patterned, or an action edited,
+breaks it. -/
+
+def actionDigestsInitial : List String := ["3ed6c99fa8", "1a828239ce", "04c9a6e024", "d01847d50c", "1f37760302", "83dde7c7bd", "90fd32733c", "250d689b8f", "249bf83cfa", "b54e28aa62", "1adaf635da", "cfd7eb0a33", "32fb39a826", "093ad1d0d1", "53c6d799d2", "3fa81c232f", "f40688046a", "73ce832f74", "bbb09faf7a", "f1deb0353b", "df721aafd8", "cd80cd8e15", "0c84972e2b", "542e283ed1", "32003d0e8c", "2a963e237a", "a0ee2bbd52", "4973f05098", "d69b775ee0", "da39a3ee5e", "da39a3ee5e", "da39a3ee5e", "1a94d5a735", "cf942e99f3"]
+def actionDigestsString : List String := ["8974c2f5ff", "a8e1b52fe0", "41654ea2c6", "abb2617d9f", "b95764c176", "dc7a29aa96", "0d698cfa5a", "44e90a4253", "20cf621710", "e4528b58ad", "2d1aecc04a", "ea99a28459", "3246d2682e", "c25eca9781"]
+def actionDigestsEmbedded : List String := ["ff47dcb0c9", "afc685a5d1", "212d64e460", "c82b0149f9", "4f9d49a8c1", "73205edecb", "c25eca9781"]
+def eofRules : List (String × String) := [("STRING", "3a97aa2d7a"), ("STRING_EMBEDDED", "f7722ac238"), ("INITIAL", "d982810ac6")]
+
+theorem lexer_rules_tie :
+    Generated.lex_INITIAL.map (·.2.1) = initialRulesTexts ∧ Generated.lex_STRING.map (·.2.1) = stringRulesTexts ∧
+    Generated.lex_STRING_EMBEDDED.map (·.2.1) = embeddedRulesTexts ∧
+    Generated.lex_INITIAL.length = initialRulesActs.length ∧ Generated.lex_STRING.length = stringRulesActs.length ∧
+    Generated.lex_STRING_EMBEDDED.length = embeddedRulesActs.length := by decide +kernel
+
+theorem lexer_actions_tie :
+    Generated.lex_INITIAL.map (·.2.2) = actionDigestsInitial ∧ Generated.lex_STRING.map (·.2.2) = actionDigestsString ∧
+    Generated.lex_STRING_EMBEDDED.map (·.2.2) = actionDigestsEmbedded ∧ Generated.lex_EOF = eofRules := by decide +kernel
 
 /-- `create_cat`: the result never has a child of its own kind when the operands had none -/
 theorem createCat_flat (tt : TT) (a b : Tree)
